@@ -353,6 +353,10 @@ def gen_cases(base, seed, tier, shard, nshards):
             cases.append(mk('compute', 'K %s %s %s' % (h256(y), h32(x), qstr(q))))
         for q in ([None, b], [x, None], [], [x], [None], [x, b, None]):
             cases.append(mk('generate', 'D %s' % qstr(q)))
+    # last line of the shard: a call made from an exit handler (the driver
+    # answers it when it exits, i.e. after the module's own exit-time clean-up)
+    x = rnd.getrandbits(256)
+    cases.append(mk('generate_pub-at-exit', 'E %s %s' % (h32(x), qstr([rnd.getrandbits(256)]))))
     return cases
 
 
@@ -368,6 +372,9 @@ def make_judge(st):
         t = c['line'].split()
         a = ans.split()
         op = t[0].upper()       # lower case: entered with a stale OpenSSL error queue
+        if op == 'E':           # generate_pub made from an exit handler (answered last)
+            op = 'G'
+            bump('calls_from_an_exit_handler')
         if t[0].islower():
             bump('entered_with_stale_openssl_errors')
         try:
